@@ -373,8 +373,8 @@ pub struct EntriesIter {
     // Stack of entry iterators for current directories being iterated over
     iters: Vec<EntryIter>,
 
-    // Stack of deferred directories to return after their contents
-    deferred: Vec<VfsEntry>,
+    // Stack of deferred directories to return after their contents, with the depth they were found at
+    deferred: Vec<(usize, VfsEntry)>,
 
     // Optional filter that yields only entries that match the predicate
     #[allow(clippy::type_complexity)]
@@ -426,12 +426,6 @@ impl EntriesIter {
             return None;
         }
 
-        // Defer directories as directed
-        if entry.is_dir() && self.opts.contents_first {
-            self.deferred.push(entry);
-            return None;
-        }
-
         // Filter as directed
         if let Some(filter) = &mut self.filter {
             if !(filter)(&entry) {
@@ -439,7 +433,22 @@ impl EntriesIter {
             }
         }
 
+        // Defer directories as directed, remembering the depth they were found at
+        if entry.is_dir() && self.opts.contents_first {
+            self.deferred.push((depth, entry));
+            return None;
+        }
+
         Some(Ok(entry))
+    }
+
+    /// Return the most recently deferred directory once its contents have been processed i.e. once
+    /// no listing deeper than the depth it was found at is open anymore.
+    fn pop_deferred(&mut self) -> Option<VfsEntry> {
+        match self.deferred.last() {
+            Some((depth, _)) if self.iters.len() <= *depth => self.deferred.pop().map(|x| x.1),
+            _ => None,
+        }
     }
 
     /// Filter on entries such that only entries that match the given predicate are returned
@@ -487,10 +496,8 @@ impl Iterator for EntriesIter {
         // Loop here to ensure that we get the next entry when filtering or deferring
         while !self.iters.is_empty() {
             // Return deferred directories if we've already processed their children
-            if self.opts.contents_first && self.iters.len() < self.deferred.len() {
-                if let Some(entry) = self.deferred.pop() {
-                    return Some(Ok(entry));
-                }
+            if let Some(entry) = self.pop_deferred() {
+                return Some(Ok(entry));
             }
 
             // Process the next entry from the current iterator
@@ -512,13 +519,7 @@ impl Iterator for EntriesIter {
         }
 
         // Return root directory for deferred case
-        if self.opts.contents_first && self.iters.len() < self.deferred.len() {
-            if let Some(entry) = self.deferred.pop() {
-                return Some(Ok(entry));
-            }
-        }
-
-        None
+        self.pop_deferred().map(Ok)
     }
 }
 
